@@ -3,9 +3,9 @@ CONSTANTS
   Kinds <- AllKinds
   Muts <- AllMuts
   TxMuts <- AllTxMuts
-  SubWheres <- WNext
+  SubWheres <- W2
   ReWheres <- AllWheres
-  MaxLen = 3
+  MaxLen = 2
 VIEW View
 INVARIANTS TypeOK Conservation
 PROPERTIES NoReplay SeqBumpedExactlyOnce AnteRejectIsNoOp OnlyValidTakeEffect SeqMonotone
